@@ -14,13 +14,31 @@ open Pypyr Pypyr.Flow
 def swallowWrap (d : StepDef) (p : St × Res) : St × Res :=
   match p.2 with
   | .err e handled =>
-    match fmtB p.1 d.swallow with
-    | .error x => raiseExc p.1 x
+    let s1 := logEscape d p.1 e handled      -- ghost log of the event; nothing observable changes
+    match fmtB s1 d.swallow with
+    | .error x => raiseExc s1 x
     | .ok sw =>
-      match (if handled then (p.1, Res.ok) else saveError d p.1 e sw) with
+      match (if handled then (s1, Res.ok) else saveError d s1 e sw) with
       | (s2, .ok) => if sw then (s2, .ok) else (s2, .err e false)
       | other => other
   | other => (p.1, other)
+
+/-- the ghost log changes nothing but `escapes`. -/
+theorem logEscape_ctx (d : StepDef) (s1 : St) (e : ExcV) (h : Bool) : (logEscape d s1 e h).ctx = s1.ctx := by
+  unfold logEscape; split <;> rfl
+theorem logEscape_trace (d : StepDef) (s1 : St) (e : ExcV) (h : Bool) : (logEscape d s1 e h).trace = s1.trace := by
+  unfold logEscape; split <;> rfl
+theorem logEscape_sleeps (d : StepDef) (s1 : St) (e : ExcV) (h : Bool) : (logEscape d s1 e h).sleeps = s1.sleeps := by
+  unfold logEscape; split <;> rfl
+theorem logEscape_stack (d : StepDef) (s1 : St) (e : ExcV) (h : Bool) : (logEscape d s1 e h).stack = s1.stack := by
+  unfold logEscape; split <;> rfl
+theorem logEscape_nextExc (d : StepDef) (s1 : St) (e : ExcV) (h : Bool) : (logEscape d s1 e h).nextExc = s1.nextExc := by
+  unfold logEscape; split <;> rfl
+theorem logEscape_rnd (d : StepDef) (s1 : St) (e : ExcV) (h : Bool) : (logEscape d s1 e h).rnd = s1.rnd := by
+  unfold logEscape; split <;> rfl
+theorem fmtB_logEscape (d : StepDef) (s1 : St) (e : ExcV) (h : Bool) (v : Val) :
+    fmtB (logEscape d s1 e h) v = fmtB s1 v := by
+  unfold fmtB; rw [logEscape_ctx]
 
 theorem runConditional_eq (d : StepDef) (inner : Body) (s : St) :
     runConditional d inner s =
@@ -61,17 +79,20 @@ theorem swallowWrap_trace (d : StepDef) (p : St × Res) : (swallowWrap d p).1.tr
   cases r with
   | err e handled =>
     simp only []
+    have hl := logEscape_trace d s1 e handled
+    generalize logEscape d s1 e handled = s1' at hl ⊢
     split
-    · rfl
+    · exact hl
     · rename_i sw _
       by_cases hh : handled = true
-      · simp only [hh, if_true]; split <;> rfl
+      · simp only [hh, if_true]; split <;> exact hl
       · simp only [hh]
-        have hs : (saveError d s1 e sw).1.trace = s1.trace := by
+        have hs : (saveError d s1' e sw).1.trace = s1.trace := by
+          rw [← hl]
           unfold saveError; simp only []
           repeat' split
           all_goals rfl
-        generalize saveError d s1 e sw = q at hs ⊢
+        generalize saveError d s1' e sw = q at hs ⊢
         obtain ⟨s2, r2⟩ := q
         cases r2 <;> simp only [Bool.false_eq_true, if_false] <;> first | exact hs | (split <;> exact hs)
   | _ => rfl
